@@ -26,7 +26,7 @@ def make_bins(shape):
     return out
 
 
-STORAGES = ('native', 'big-endian', 'fortran', 'strided', 'float32')
+STORAGES = ('native', 'big-endian', 'fortran', 'strided', 'float32', 'string-bins')
 
 
 def store(arr, storage):
@@ -57,6 +57,12 @@ def make_datasets(shape, patterns, names=None, storage=None):
     def mk(val, err, name):
         if shape == ():
             return Dataset(np.float64(val[0]), np.float64(err[0]), name=name, what='flux')
+        if storage == 'string-bins':
+            # zone / isotope names instead of numbers along the first axis (bins at centre); every dataset owns its arrays
+            sbins = OrderedDict((k, v.copy()) for k, v in bins.items())
+            first = next(iter(sbins))
+            sbins[first] = np.array([f'zone{i}' for i in range(shape[0])])
+            return Dataset(val.reshape(shape).copy(), err.reshape(shape).copy(), bins=sbins, name=name, what='flux')
         sbins = bins if storage in (None, 'native') else OrderedDict((k, store(v.copy(), storage)) for k, v in bins.items())
         return Dataset(store(val.reshape(shape).copy(), storage), store(err.reshape(shape).copy(), storage), bins=sbins,
                        name=name, what='flux')
